@@ -60,19 +60,75 @@ class Crate:
                 return t
 
 
-def load_crate(path, prefix):
+def load_raw(path, prefix):
     raw = open(path, encoding="utf-8").read()
     if prefix == LIB:
         raw = raw.replace("crate::", LIB + "::")
     else:
         raw = raw.replace("crate::", BIN + "::").replace("tree_sitter_graph::", LIB + "::")
+    return raw
+
+
+def load_crate(path, prefix, renames=None):
+    raw = load_raw(path, prefix)
+    for new, old in (renames or []):
+        raw = raw.replace(json.dumps(new)[1:-1], json.dumps(old)[1:-1])
     return Crate(json.loads(raw), prefix)
 
 
+ANCHORS = os.path.join(os.path.dirname(os.path.dirname(os.path.dirname(os.path.abspath(__file__)))), "anchors.json")
+
+
+def fn_signature(f):
+    """rename-independent identity of a function: kind, receiver type, parameter and return types"""
+    ins = tuple(re.sub(r"'[a-z_]\w*", "'_", f.ty(i).s) for i in f.inputs)
+    out = re.sub(r"'[a-z_]\w*", "'_", f.ty(f.output).s) if f.output is not None else ""
+    return "%s|%s|%s|%s->%s" % (f.kind, f.self_path or "", f.trait or "", ",".join(ins), out)
+
+
+def compute_renames(fns, anchors):
+    """functions that were renamed or moved since the anchors were recorded: an anchor whose id is gone is
+    re-bound to the unique new function with the same signature (and, if possible, the same name)"""
+    known = {a["id"] for a in anchors}
+    missing = [a for a in anchors if a["id"] not in fns]
+    fresh = [f for f in fns.values() if f.id not in known and f.kind != "closure"]
+    by_sig = {}
+    for f in fresh:
+        by_sig.setdefault(fn_signature(f), []).append(f)
+    miss_by_sig = {}
+    for a in missing:
+        miss_by_sig.setdefault(a["sig"], []).append(a)
+    renames = []
+    for sig, ms in miss_by_sig.items():
+        cands = by_sig.get(sig, [])
+        if len(ms) == 1 and len(cands) == 1:
+            renames.append((cands[0].id, ms[0]["id"]))
+        else:
+            # several with one signature: pair those that kept their name (moved to another module)
+            for a in ms:
+                same = [c for c in cands if c.name == a["name"]]
+                if len(same) == 1:
+                    renames.append((same[0].id, a["id"]))
+    # longest first so that nested paths are replaced consistently
+    renames.sort(key=lambda x: -len(x[0]))
+    return renames
+
+
 class Program:
-    def __init__(self, facts_dir):
-        self.lib = load_crate(os.path.join(facts_dir, "tree_sitter_graph-lib.json"), LIB)
-        self.bin = load_crate(os.path.join(facts_dir, "tree_sitter_graph-bin.json"), BIN)
+    def __init__(self, facts_dir, use_anchors=True):
+        lib_path = os.path.join(facts_dir, "tree_sitter_graph-lib.json")
+        bin_path = os.path.join(facts_dir, "tree_sitter_graph-bin.json")
+        self.lib = load_crate(lib_path, LIB)
+        self.bin = load_crate(bin_path, BIN)
+        self.renames = []
+        if use_anchors and os.path.exists(ANCHORS):
+            anchors = json.load(open(ANCHORS))["functions"]
+            allf = dict(self.lib.fns)
+            allf.update(self.bin.fns)
+            self.renames = compute_renames(allf, anchors)
+            if self.renames:
+                self.lib = load_crate(lib_path, LIB, self.renames)
+                self.bin = load_crate(bin_path, BIN, self.renames)
         self.fns = {}
         self.fns.update(self.lib.fns)
         self.fns.update(self.bin.fns)
@@ -129,6 +185,9 @@ class Fn:
         self.id = d["id"]
         self.kind = d["kind"]
         self.name = d["name"]
+        if self.kind != "closure":
+            # keeps name and path consistent when a renamed function was re-bound to its recorded path
+            self.name = self.id.rsplit("::", 1)[-1]
         self.vis = d["vis"]
         self.reachable = d.get("reachable", False)
         self.sp = d["sp"]
